@@ -472,6 +472,13 @@ func newObjectCache(pkgs []*packages.Package) *objectCache {
 // get converts a Go object into a Wire structure. It may return a *Provider, an
 // *IfaceBinding, a *ProviderSet, a *Value, or a []*Field.
 func (oc *objectCache) get(obj types.Object) (val interface{}, errs []error) {
+	if obj.Pkg() == nil || obj.Parent() != obj.Pkg().Scope() {
+		// Only package-level objects can be providers or provider sets. The
+		// cache is keyed by package path and name, so a parameter or local
+		// variable must not reach it: it would be mistaken for (or shadow) a
+		// package-level object of the same name.
+		return nil, []error{fmt.Errorf("%v is not a provider or a provider set", obj)}
+	}
 	ref := objRef{
 		importPath: obj.Pkg().Path(),
 		name:       obj.Name(),
